@@ -185,6 +185,20 @@ func check(r *vf.Run, c pcase) {
 		}
 		n += 2
 	}
+	if ccl >= minl && la != lb && minl >= 1 {
+		// one properly contains the other (equal prefixes are not judged: no caller asks for their supernet). What "the" common supernet is then is not pinned down by the
+		// statement (the shorter prefix itself, or the next shorter one that strictly contains both): accepted is any
+		// prefix that contains-or-equals both and is at most one bit shorter than the shorter of the two
+		CA, CB := bnet.NewPfx(toIP(c.V4, ch, clo), c.ALen), bnet.NewPfx(toIP(c.V4, dh, dlo), c.BLen)
+		got := CA.GetSupernet(&CB)
+		gl8 := int(got.Len())
+		_, gh, gl := fromIP(got.Addr())
+		sh, sl := maskTo(ch, clo, gl8)
+		if gl8 > minl || gl8 < minl-1 || gh != sh || gl != sl || got.Addr().IsIPv4() != c.V4 {
+			viol("supernet", vf.F("band", band(c.V4, uint8(minl)), "nested", true), "GetSupernet(%s/%d,%s/%d)=%s: not a prefix of length %d or %d that covers both (one contains the other)", ipStr(c.V4, ch, clo), la, ipStr(c.V4, dh, dlo), lb, got.String(), minl-1, minl)
+		}
+		n++
+	}
 	// base address, validity
 	bh, bl := maskTo(c.AHi, c.ALo, la)
 	base := A.BaseAddr()
@@ -278,7 +292,7 @@ func flip(hi, lo uint64, k int) (uint64, uint64) {
 func main() {
 	vf.Main("C15", "exploration", func(r *vf.Run) {
 		r.Rule("every (lenA,lenB) in 0..32 squared and 0..128 squared x base address {0, all-ones, 3 PRNG, v4-mapped for v6} x second address = first with exactly bit k flipped, k in {1,min-1,min,min+1,31..34,63..66,95..98,127,128} within the width, plus identical addresses; plus PRNG pairs; plus equality of an IPv4 and an IPv6 address/prefix with the same numeric bits (must be false); reference = bit-by-bit 128-bit arithmetic. distinct_nontrivial = distinct (family,lenA,lenB,k) combinations where the flipped bit lies at or before min(lenA,lenB)+1, i.e. it decides containment/supernet")
-		r.Assume("Contains is judged as strict containment; equal-length pairs are not judged for Contains", "GetSupernet is judged only where the canonical prefixes differ before min(lenA,lenB) (the only case in which the trie calls it)")
+		r.Assume("Contains is judged as strict containment; equal-length pairs are not judged for Contains", "GetSupernet is judged exactly where the canonical prefixes differ before min(lenA,lenB) (the only case in which the trie calls it); where one prefix properly contains the other any covering prefix of length min or min-1 is accepted; equal prefixes and a /0 operand are not judged")
 		if raw, ok := r.Replaying(); ok {
 			var c pcase
 			vf.Decode(raw, &c)
